@@ -929,22 +929,41 @@ func c05DefaultHandler(r *Run, rp *packages.Package) {
 	found := false
 	for _, fd := range funcDecls(rp) {
 		ast.Inspect(fd.Body, func(n ast.Node) bool {
-			cl, ok := n.(*ast.CompositeLit)
-			if !ok {
+			// the handler is a function literal stored into a func(data.Control) field of the VM: in the VM's
+			// composite literal, or by an assignment vm.f = func(…) {…} in the function that builds the VM
+			var lits []*ast.FuncLit
+			switch x := n.(type) {
+			case *ast.CompositeLit:
+				if nt := namedOf(info.TypeOf(x)); nt != nil && nt.Obj() == vm.Obj() {
+					for _, el := range x.Elts {
+						if kv, ok := el.(*ast.KeyValueExpr); ok {
+							if lit, ok := kv.Value.(*ast.FuncLit); ok {
+								lits = append(lits, lit)
+							}
+						}
+					}
+				}
+			case *ast.AssignStmt:
+				if len(x.Lhs) == len(x.Rhs) {
+					for i, l := range x.Lhs {
+						se, ok := ast.Unparen(l).(*ast.SelectorExpr)
+						if !ok {
+							continue
+						}
+						sel, ok := info.Selections[se]
+						if !ok || sel.Kind() != types.FieldVal || namedOf(info.TypeOf(se.X)) == nil || namedOf(info.TypeOf(se.X)).Obj() != vm.Obj() {
+							continue
+						}
+						if lit, ok := ast.Unparen(x.Rhs[i]).(*ast.FuncLit); ok {
+							lits = append(lits, lit)
+						}
+					}
+				}
+			}
+			if len(lits) == 0 {
 				return true
 			}
-			if nt := namedOf(info.TypeOf(cl)); nt == nil || nt.Obj() != vm.Obj() {
-				return true
-			}
-			for _, el := range cl.Elts {
-				kv, ok := el.(*ast.KeyValueExpr)
-				if !ok {
-					continue
-				}
-				lit, ok := kv.Value.(*ast.FuncLit)
-				if !ok {
-					continue
-				}
+			for _, lit := range lits {
 				// a func(data.Control) field
 				sig, ok := info.TypeOf(lit).(*types.Signature)
 				if !ok || sig.Params().Len() != 1 || !isNamed(sig.Params().At(0).Type(), modPath+"/data", "Control") {
